@@ -1,0 +1,175 @@
+//! Scripted-heap driver for the verification harness (`verif-hooks` only).
+//!
+//! Runs a script of heap operations against the real `GcContext` and reports,
+//! after every `gc`, which nodes are still alive (observed through `Drop`).
+
+use std::cell::RefCell;
+use std::rc::Rc;
+
+use super::{Gc, GcContext, GcTrace, GcTraceCtx, GcView};
+
+struct Node {
+    id: usize,
+    edges: RefCell<Vec<(usize, Gc<Node>)>>,
+    dropped: Rc<RefCell<Vec<usize>>>,
+}
+
+impl GcTrace for Node {
+    fn trace<'a>(&self, ctx: &mut impl GcTraceCtx<'a>)
+    where
+        Self: 'a,
+    {
+        for (_, e) in self.edges.borrow().iter() {
+            e.trace(ctx);
+        }
+    }
+}
+
+impl Drop for Node {
+    fn drop(&mut self) {
+        self.dropped.borrow_mut().push(self.id);
+    }
+}
+
+#[derive(Default)]
+struct Held {
+    handles: Vec<Gc<Node>>,
+    views: Vec<GcView<Node>>,
+}
+
+impl Held {
+    fn gc_handle(&self) -> Option<Gc<Node>> {
+        if let Some(h) = self.handles.first() {
+            Some(h.clone())
+        } else {
+            self.views.first().map(Gc::from)
+        }
+    }
+}
+
+/// Runs `ops` (whitespace-free tokens, see /verif/DESIGN.md C03):
+///
+/// * `a` / `av`      allocate node (next id) holding one handle / one view
+/// * `h:i` / `v:i`   take one more handle / view of node `i`
+/// * `dh:i` / `dv:i` drop one handle / view of node `i`
+/// * `e:i:j`         add edge `i -> j`
+/// * `d:i:j`         delete one edge `i -> j`
+/// * `gc`            collect
+///
+/// An operation that needs access to a node of which the driver holds neither
+/// a handle nor a view is answered `skip`.
+pub fn run_script(ops: &[&str]) -> Vec<String> {
+    let dropped = Rc::new(RefCell::new(Vec::new()));
+    let mut out = Vec::new();
+    {
+        let ctx = GcContext::new();
+        let mut held: Vec<Held> = Vec::new();
+        for op in ops {
+            let parts: Vec<&str> = op.split(':').collect();
+            let arg = |k: usize| -> Option<usize> {
+                parts
+                    .get(k)
+                    .and_then(|s| s.parse::<usize>().ok())
+                    .filter(|&i| i < held.len())
+            };
+            let r: String = match parts[0] {
+                "a" => {
+                    let id = held.len();
+                    let h = ctx.alloc(Node {
+                        id,
+                        edges: RefCell::new(Vec::new()),
+                        dropped: dropped.clone(),
+                    });
+                    held.push(Held {
+                        handles: vec![h],
+                        views: Vec::new(),
+                    });
+                    format!("n{id}")
+                }
+                "av" => {
+                    let id = held.len();
+                    let v = ctx.alloc_view(Node {
+                        id,
+                        edges: RefCell::new(Vec::new()),
+                        dropped: dropped.clone(),
+                    });
+                    held.push(Held {
+                        handles: Vec::new(),
+                        views: vec![v],
+                    });
+                    format!("n{id}")
+                }
+                "h" => match arg(1).and_then(|i| held[i].gc_handle().map(|h| (i, h))) {
+                    Some((i, h)) => {
+                        held[i].handles.push(h);
+                        "ok".into()
+                    }
+                    None => "skip".into(),
+                },
+                "v" => match arg(1).and_then(|i| held[i].gc_handle().map(|h| (i, h))) {
+                    Some((i, h)) => {
+                        let v = h.view();
+                        held[i].views.push(v);
+                        "ok".into()
+                    }
+                    None => "skip".into(),
+                },
+                "dh" => match arg(1) {
+                    Some(i) if !held[i].handles.is_empty() => {
+                        held[i].handles.pop();
+                        "ok".into()
+                    }
+                    _ => "skip".into(),
+                },
+                "dv" => match arg(1) {
+                    Some(i) if !held[i].views.is_empty() => {
+                        held[i].views.pop();
+                        "ok".into()
+                    }
+                    _ => "skip".into(),
+                },
+                "e" => match (
+                    arg(1).and_then(|i| held[i].gc_handle()),
+                    arg(2).and_then(|j| held[j].gc_handle()),
+                ) {
+                    (Some(hi), Some(hj)) => {
+                        let j = arg(2).unwrap();
+                        hi.view().edges.borrow_mut().push((j, hj));
+                        "ok".into()
+                    }
+                    _ => "skip".into(),
+                },
+                "d" => match (arg(1).and_then(|i| held[i].gc_handle()), arg(2)) {
+                    (Some(hi), Some(j)) => {
+                        let v = hi.view();
+                        let mut edges = v.edges.borrow_mut();
+                        match edges.iter().position(|(k, _)| *k == j) {
+                            Some(pos) => {
+                                edges.remove(pos);
+                                "ok".into()
+                            }
+                            None => "skip".into(),
+                        }
+                    }
+                    _ => "skip".into(),
+                },
+                "gc" => {
+                    ctx.gc();
+                    let dead = dropped.borrow();
+                    let live: Vec<String> = (0..held.len())
+                        .filter(|i| !dead.contains(i))
+                        .map(|i| i.to_string())
+                        .collect();
+                    format!("live[{}]#{}", live.join(","), ctx.num_objects())
+                }
+                _ => "bad".into(),
+            };
+            out.push(r);
+        }
+        // drop everything the driver holds, collect, and report the baseline
+        drop(held);
+        ctx.gc();
+        out.push(format!("end#{}", ctx.num_objects()));
+    }
+    out
+}
